@@ -589,7 +589,7 @@ func checkHelperTemplates(c *core.Ctx, l *core.Ledger) {
 			src := nodeStr(v.Fset, v.File)
 			rt := "ƬtypeReferenceʃδˑFunctionˑResultSpecˑReturnType"
 			ok := strings.Contains(src, "WrapResponse func("+rt+", error)") && strings.Contains(src, "UnwrapResponse func(*ƒnamePrefixʃδˑServiceˑδˑFunctionResult) ("+rt+", error)")
-			l.Check(ok, "HELPERS", t.ID+":[" + v.AtomString() + "]", c.Rel(t.Pos), "helper signatures use the value type of the declared return type", "helper signatures do not use typeReference of the return type")
+			l.Check(ok, "HELPERS", t.ID+":["+v.AtomString()+"]", c.Rel(t.Pos), "helper signatures use the value type of the declared return type", "helper signatures do not use typeReference of the return type")
 		}
 	}
 	l.Floor("HELPERS", 8)
